@@ -87,6 +87,7 @@ type Exec struct {
 	top      *Frame
 	oblNames map[string]int
 	havocLog *[]havocRec // scalar locations havocked by the contract being applied
+	variants map[variantKey]*Term // loop variants evaluated at the loop head
 }
 
 func (ex *Exec) note(format string, args ...interface{}) {
@@ -571,6 +572,27 @@ func (ex *Exec) checkInvariant(fr *Frame, st *State, li *loopInfo, kind string) 
 		g := env.evalBool(inv.Expr)
 		ex.addOblSk(kind, fmt.Sprintf("loop%d.%d", ord, i+1), li.head.Instrs[0].Pos(), st, g, env.skolems, inv.Src)
 	}
+	// termination: on a back edge the variant is smaller than it was at the loop head, where
+	// it was non-negative
+	if kind == "inv-step" {
+		for i, d := range ls.Decreases {
+			v0 := ex.variants[variantKey{li, i}]
+			if v0 == nil {
+				continue
+			}
+			env := ex.specEnv(fr, st, ex.entryOf(fr), false)
+			v1, ok := env.eval(d.Expr).(Sc)
+			if !ok || v1.T.Sort != v0.Sort {
+				specErr("decreases: integer expression expected")
+			}
+			ex.addOblSk("variant", fmt.Sprintf("loop%d.%d", ord, i+1), li.head.Instrs[0].Pos(), st, And(SLe(BVi(0, v0.Sort.W), v0), SLt(v1.T, v0)), nil, d.Src)
+		}
+	}
+}
+
+type variantKey struct {
+	li *loopInfo
+	i  int
 }
 
 func (ex *Exec) addOblSk(kind, detail string, pos token.Pos, st *State, goal *Term, sk []*Term, src string) {
@@ -726,6 +748,16 @@ func (ex *Exec) enterLoop(fr *Frame, st *State, li *loopInfo) *State {
 		for _, inv := range ls.Invariants {
 			env := ex.specEnv(fr, out, ex.entryOf(fr), true)
 			out.assume(env.evalBool(inv.Expr))
+		}
+		// value of the variant(s) at the loop head
+		for i, d := range ls.Decreases {
+			env := ex.specEnv(fr, out, ex.entryOf(fr), true)
+			if sc, ok := env.eval(d.Expr).(Sc); ok {
+				if ex.variants == nil {
+					ex.variants = map[variantKey]*Term{}
+				}
+				ex.variants[variantKey{li, i}] = sc.T
+			}
 		}
 	}
 	return out
